@@ -106,12 +106,49 @@ func bodyDump(b *hclsyntax.Body) string {
 	return sb.String()
 }
 
+// held: results of earlier Format calls that the "caller" still holds, with a private copy taken
+// when they were returned. The formatter's output is a value: a later call (on any input) must not
+// change a result handed out earlier (e.g. through a reused output buffer), nor may Format write
+// into its input.
+type heldOut struct {
+	out, snapshot []byte
+	src           string
+}
+
+var held []heldOut
+
+func checkHeld() (string, string) {
+	for _, h := range held {
+		if !bytes.Equal(h.out, h.snapshot) {
+			return "format-result-changed-by-later-call",
+				fmt.Sprintf("the result of an earlier Format(%q) read %q when returned and reads %q after later Format calls", h.src, h.snapshot, h.out)
+		}
+	}
+	return "", ""
+}
+
+func hold(src, out []byte) {
+	if len(held) >= 8 {
+		held = held[1:]
+	}
+	held = append(held, heldOut{out: out, snapshot: append([]byte(nil), out...), src: string(src)})
+}
+
 // c09Oracle runs the property directly on the real code for one source text.
 // Returns "" when it holds, else (kind, detail).
 func c09Oracle(src []byte) (kind, detail string) {
 	_, diags := hclsyntax.ParseConfig(src, "t.hcl", hcl.InitialPos)
 	valid := !diags.HasErrors()
+	srcCopy := append([]byte(nil), src...)
 	out := hclwrite.Format(src)
+	if !bytes.Equal(src, srcCopy) {
+		return "format-modifies-input", "Format wrote into its argument"
+	}
+	if k, d := checkHeld(); k != "" {
+		held = nil
+		return k, d
+	}
+	hold(src, out)
 	if !valid {
 		// The property speaks about error-free configurations only; totality
 		// on other inputs belongs to C15.
@@ -128,10 +165,16 @@ func c09Oracle(src []byte) (kind, detail string) {
 		}
 		return k, fmt.Sprintf("token %d differs after formatting", i)
 	}
+	outCopy := append([]byte(nil), out...)
 	out2 := hclwrite.Format(out)
-	if !bytes.Equal(out, out2) {
+	if !bytes.Equal(outCopy, out2) {
 		return "not-idempotent", "Format(Format(src)) != Format(src)"
 	}
+	if k, d := checkHeld(); k != "" {
+		held = nil
+		return k, d
+	}
+	hold(out, out2)
 	f2, diags2 := hclsyntax.ParseConfig(out, "t.hcl", hcl.InitialPos)
 	if diags2.HasErrors() {
 		return "formatted-output-has-errors", diags2.Error()
